@@ -169,18 +169,18 @@ def run(ctx):
     # scenarios: plain backup/restore (races, chain of two backups) and copies with faults
     per = ctx.pick(2, 12)
     store, stats = [], {}
-    n = ctx.pick(400, 2500)
-    # quick: one run whose preparation phase has 5 (6) or 2 (3) steps; thorough: every length 1..6
-    for mp in ctx.pick((5 + ctx.seed % 2,), (1, 2, 3, 4, 5, 6)):
+    n = ctx.pick(400, 1200)
+    # quick: one run whose preparation phase has 5 (6) or 2 (3) steps; thorough: lengths 2, 4 and 6
+    for mp in ctx.pick((5 + ctx.seed % 2,), (2, 4, 6)):
         store += generate(ctx, sd, "store", n, MaxPrep=mp, Cuts=[], Missing=False, GenReqAt=ctx.pick([0, 3], [0]))
     for mp in ctx.pick((3,), (2, 4)):
         store += generate(ctx, sd, "store", n, MaxPrep=mp, MaxBackups=2, Cuts=[], Missing=False, Modes=['"restore"'], MaxRace=1)
     copy = []
-    for mp in ctx.pick((4 + ctx.seed % 2,), (1, 2, 3, 4, 5, 6)):
+    for mp in ctx.pick((4 + ctx.seed % 2,), (2, 4, 6)):
         copy += generate(ctx, sd, "copy", n, MaxPrep=mp, MaxRace=0, Missing=False, GenReqAt=ctx.pick([0, 2], [0]))
     copy += generate(ctx, sd, "copy", 20, MaxPrep=1, MaxRace=0, Missing=True)
-    sel_store, st1 = select(store, per, rnd, ctx.pick(90, 1500))
-    sel_copy, st2 = select(copy, per, rnd, ctx.pick(90, 1500))
+    sel_store, st1 = select(store, per, rnd, ctx.pick(90, 600))
+    sel_copy, st2 = select(copy, per, rnd, ctx.pick(90, 600))
     log("scenarios: store %d generated / %d replayed, copy %d generated / %d replayed" % (len(store), len(sel_store), len(copy), len(sel_copy)))
     need = {"cache", "files", "mixed", "tomb", "tomb+cache", "empty", "inflight"}
     have = {classify(b)[0] for b in sel_store}
